@@ -118,8 +118,11 @@ def components(ctx):
 
 
 def check(ctx):
+    # crypto/crypto_entropy.c (a file of this property) supplies the private value and the blinding; it is scripted in the
+    # components above, and exercised for real by C11's components (HMAC_DRBG refinement, reseed schedule), which run here too.
+    from props import c11 as _c11
     return vlib.standard_check(
-        ctx, MODULES, components(ctx),
+        ctx, MODULES, components(ctx) + _c11.components(ctx),
         assumptions=["OpenSSL BN_bin2bn/BN_add/BN_sub/BN_mod_exp/BN_mod_mul/BN_num_bytes/BN_bn2bin behave as the arithmetic they name (modelled, not verified)",
                      "crypto_entropy_read is replaced by scripted blinding values (its own correctness is C11)"],
         trusted=["pmodel (compiled Lean model)", "tools/extractors/c10.py (constants from crypto_dh*.c)", "harness/h_dh.c",
